@@ -52,8 +52,9 @@ def run_job(job, ref):
     out["ref_requests"] = ref.requests
     out["run_seed"] = sc.get("run_seed")
     out["hashseed"] = os.environ.get("PYTHONHASHSEED")
-    out["fams"] = sorted(set(f for op in sc["ops"] if op["op"] == "build" for f in op["fm"]["fams"])) \
-        if all("fm" in op for op in sc["ops"] if op["op"] == "build") else []
+    flat = [oo for op in sc["ops"] for oo in (op, op.get("nested")) if oo]
+    out["fams"] = sorted(set(f for op in flat if op["op"] == "build" for f in op["fm"]["fams"])) \
+        if all("fm" in op for op in flat if op["op"] == "build") else []
     if not job.get("events"):
         out.pop("events", None)
     if out["violation"] is not None or job.get("want_scenario"):
@@ -75,6 +76,8 @@ def _brief(op):
         b["polluted"] = op["polluted"]
     if "idx" in op:
         b["n_rows"] = len(op["idx"])
+    if op.get("nested"):
+        b["nested_inside_uf"] = _brief(op["nested"])
     return b
 
 
